@@ -30,8 +30,9 @@ RULE = ('one case = (algorithm or aggregator, hyper-parameters, population, part
 TRUSTED = ['jax.Array.is_deleted() reports donated buffers; Python `is` identifies objects (used for the sharing pattern)',
            'pickle / fedjax.core.serialization.save_state+load_state as the serialiser under test (load after save = identity on values is what clause 3 observes)',
            'JAX buffer donation happens only at the donate_argnums call sites visible in the Python source']
+TRUSTED += ['tools/anchors/c10_effects.py: reading of Python container effects (calls into imported modules, factory closures and @jax.jit functions are pure; PURE_METHODS do not write their receiver); fail-closed otherwise']
 ASSUMPTIONS = ['batching hyper-parameters carry a fixed seed (seed=None is documented OS-entropy shuffling, outside the quantifier)',
-               'Store-calculus scripts are hand-written from the source of each apply(); the pure functions they call (client training, optimizers, quantizers) are uninterpreted',
+               'Store-calculus scripts are written from the source of each apply() and proved to perform the container effects TRANSLATED from it (C10_scripts_match_source); the pure functions they call (client training, optimizers, quantizers) are uninterpreted',
                'C10_restore_and_continue: section hypothesis load_save = the serialiser re-creates a state with the same value at fresh locations']
 PARTIAL = ['in-place effects inside compiled XLA code are represented only by the Donate sites of the scripts']
 CASE_TIMEOUT = 240
